@@ -42,8 +42,15 @@ def claims_of(r):
     hstart = [(i, e) for i, e in enumerate(tr) if e[0] == 'CB' and e[1] == 'start' and e[2] in ('handle', 'handle_serialized')]
     hargs = [e for e in tr if e[0] == 'CBARG']
     killed = r['klass'] is not None and r['klass'][0] == 'killed'
+    kinds = [e for e in tr if e[0] == 'MSGKIND']
+    flushed = [e for e in tr if e[0] == 'FLUSHED']
     c = {}
     c['at_most_one_message_dequeued_per_iteration'] = len(mrecv) <= 1
+    # whatever the iteration takes out of a port it dispatches: nothing is read with a non-blocking look and dropped, and a dequeued message always reaches
+    # the decoder (from there on the other claims follow it) unless a kill ends the actor first
+    c['nothing_taken_from_a_port_is_discarded'] = not flushed
+    if r['klass'] is not None and any(e[1] in ('plain', 'serialized') for e in kinds):
+        c['a_dequeued_message_reaches_the_decoder_unless_a_kill_preempts'] = bool(dec) or killed
     c['a_handler_starts_at_most_once_and_only_for_a_dequeued_message'] = len(hstart) <= 1 and (not hstart or len(mrecv) == 1) and len(hargs) == len(hstart)
     same = True
     for e in hargs:
@@ -76,7 +83,7 @@ def run_one(sub, prog, runtime, budget):
             seen.add('handled')
         if any(e[0] == 'DECODE' and e[2] != 'ok' for e in tr):
             seen.add('undecodable')
-        if any(e[0] == 'RECV' and e[1] == 'msgq' for e in tr) and not any(e[0] == 'DECODE' for e in tr):
+        if any(e[0] == 'MSGKIND' and e[1] == 'marker' for e in tr):
             seen.add('drain_marker')
     for w in ('handled', 'undecodable', 'drain_marker'):
         sub.note_witness('C02.%s.%s_path_exists' % (tag, w), w in seen)
@@ -97,3 +104,41 @@ def instances(tier):
     if tier == 'quick':
         return [('ActorRuntime', 1)]
     return [('ActorRuntime', 1), ('ActorRuntime', 2), ('ThreadLocalActorRuntime', 1)]
+
+
+# ---------------------------------------------------------------------------------------------------------------- C07: the loop side of a drain
+def drain_claims(r):
+    """C07: the drain marker, once dequeued, ends the loop gracefully with reason "Drained" without running a handler; nothing else produces that reason"""
+    tr = r['state'].trace
+    mrecv = [e for e in tr if e[0] == 'RECV' and e[1] == 'msgq']
+    marker = bool(mrecv) and any(e[0] == 'MSGKIND' and e[1] == 'marker' for e in tr)
+    lr = r.get('loop_result')
+    reason = lr['exit_reason'] if lr else None
+    drained = isinstance(reason, Enum) and reason.variant == 'Some' and isinstance(reason.fields[0], Str) and reason.fields[0].s == 'Drained'
+    c = {}
+    if r['klass'] is None:
+        return c, marker
+    if marker:
+        killed = r['klass'][0] == 'killed'
+        c['the_drain_marker_stops_the_loop_gracefully_with_reason_Drained'] = killed or (r['klass'] == ('stop', None) and drained)
+        c['the_drain_marker_runs_no_handler'] = not any(e[0] == 'CB' and e[1] == 'start' for e in tr)
+    if drained:
+        c['only_the_drain_marker_produces_the_reason_Drained'] = marker
+    return c, marker
+
+
+def drain_job(sub, runtime, budget):
+    prog, info = lc.load()
+    # the loop runs while the actor is Running / Upgrading / Draining: the status it may read about itself is any of those
+    I1, a1, pm = lt.explore_process_message(prog, runtime, budget, loop_status=(2, 4))
+    sub.absorb(I1)
+    sub.paths += len(pm)
+    tag = 'loop.%s.p%d' % (runtime, budget)
+    seen = False
+    for k, r in enumerate(pm):
+        c, marker = drain_claims(r)
+        seen = seen or (marker and r['klass'] == ('stop', None))
+        if c:
+            lp.record(sub, '%s.path%d' % (tag, k), r['state'], c, 'C07.loop', sample={'layer': 'L1 process_message', 'class': r['klass']}, on_cex=lambda m: replay(tag))
+    sub.note_witness('C07.%s.marker_path_exists' % tag, seen)
+    sub.extra.setdefault('loop_side', []).append({'runtime': runtime, 'poll_budget': budget, 'paths': len(pm)})
